@@ -498,6 +498,26 @@ def run(ctx):
                            ('%s calls %s %s' % (f['name'], tgt, 'under mReportSync' if id(x) in locked else '(self-locking)')) if ok else
                            ('%s forwards to %s without holding mReportSync: output of two workers can interleave / the wrapped logger '
                             'is entered concurrently' % (f['name'], tgt)), '%s:%s' % (f['file'], x['l']))
+    # who may call the functions that use the executor's raw logger: in worker code only the forwarder (whose calls are checked above)
+    rawfns = {}
+    for f in F.all_fns():
+        if any(a['n'] == 'Executor::mErrorLogger' for a in f['acc']):
+            rawfns[f['id']] = f
+    if not rawfns:
+        raise AnalysisBroken('no function uses Executor::mErrorLogger')
+    nraw = 0
+    for k, (f, _, _) in T.items():
+        if f['id'] in rawfns:
+            continue
+        for c in f['calls']:
+            for g in [h for h in rawfns.values() if h['id'] == c['f']]:
+                nraw += 1
+                ok = f.get('cls') == 'SyncLogForwarder'
+                ctx.ob('R16.5', 'raw-logger-caller:%s->%s' % (f['name'], g['name'].split('::')[-1]), ok,
+                       ('%s (the locking forwarder) calls %s' % (f['name'], g['name'])) if ok else
+                       ('%s runs in the worker threads and calls %s, which writes to the executor\'s raw ErrorLogger, without going through SyncLogForwarder (mReportSync): the wrapped logger '
+                        'is entered by two threads at once' % (f['name'], g['name'])), '%s:%s' % (f['file'], c['l']))
+    ctx.floor('R16.5 worker-side callers of raw-logger functions', nraw, 1)
     # the workers' CppCheck gets the forwarder
     chk = [f for f in F.find('ThreadData::check')]
     if len(chk) != 1:
